@@ -79,6 +79,10 @@ def chk_gs(c):
     idx = None
     if c['indices']:
         idx = list(rng.permutation(n)[:max(1, n // 2)])
+        if c['indices'] == 'perm':          # a long index list in no particular order (neither ascending nor descending)
+            idx = list(rng.permutation(n))[:max(3, n - 1)]
+            if idx == sorted(idx) or idx == sorted(idx, reverse=True):
+                idx[0], idx[1] = idx[1], idx[0]
     rows_f = list(range(n)) if idx is None else list(idx)
     ref = x0.copy()
     for _ in range(c['iterations']):
@@ -309,6 +313,9 @@ def generate(tier, rng):
         for fmt in fmts:
             yield 'gs', {'seed': k, 'kind': kind, 'n': n, 'fmt': fmt, 'sweep': ['forward', 'backward', 'symmetric'][(k + len(fmt)) % 3],
                          'indices': bool((k + len(fmt)) % 2), 'iterations': 1 + (k % 3)}
+    for k in range(18):
+        yield 'gs', {'seed': 900 + k, 'kind': ['spd', 'dd', 'nonsym'][k % 3], 'n': 5 + k % 4, 'fmt': ['dense', 'csr', 'csc'][k // 3 % 3],
+                     'sweep': ['backward', 'symmetric', 'forward'][k % 3 if k < 12 else k % 2], 'indices': 'perm', 'iterations': 1 + k % 2}
     bases = [
         {'dim': 1, 'p': 1, 'n': 4}, {'dim': 1, 'p': 2, 'n': 4}, {'dim': 1, 'p': 3, 'n': 5},
         {'dim': 2, 'p': 1, 'n': 2}, {'dim': 2, 'p': 2, 'n': 3},
